@@ -82,15 +82,35 @@ Definition expected_supply_delta (s : hstep) : option Z :=
   else if (st_op s =? "WithdrawTokens")%string then
          match st_params s with [a] => Some (- a) | _ => None end
   else if (st_op s =? "BeginBlock")%string then None     (* mint provision minus dispute burns: see below *)
-  else if (st_op s =? "ClaimDeposits")%string then None
+  else if (st_op s =? "ClaimDeposits")%string then
+         (* the driver passes the sum of the reported amounts (already divided by 10^12) of the claimed deposits *)
+         match st_params s with [a] => Some a | _ => None end
   else if (st_op s =? "WithdrawFeeRefund")%string then None   (* may burn accumulated dust *)
+  else if (st_op s =? "ValidatorSlash")%string then None      (* SDK-internal burn: out of scope *)
   else Some 0.
 
 Definition begin_block_mint (s : hstep) : Z :=
   match st_params s with
-  | [ini; prev; now] => if (ini =? 1) && negb (prev =? -1) then provision prev now else 0
+  | ini :: prev :: now :: _ => if (ini =? 1) && negb (prev =? -1) then provision prev now else 0
   | _ => 0
   end.
+
+(* the disputes a begin blocker executed, as the driver reads them from the store afterwards:
+   (dispute id, BurnAmount of the record, flags: bit 0 = no voting power was cast in any round,
+   bit 1 = a later round of the same dispute exists) *)
+Fixpoint executed_facts (l : list Z) : list (Z * Z * Z) :=
+  match l with
+  | id :: b :: f :: t => (id, b, f) :: executed_facts t
+  | _ => []
+  end.
+Definition begin_block_executed (s : hstep) : list (Z * Z * Z) :=
+  if (st_op s =? "BeginBlock")%string && (st_result s =? 0)
+  then match st_params s with _ :: _ :: _ :: t => executed_facts t | _ => [] end
+  else [].
+(* the documented dispute burn: half of the burn amount (rounded down), all of it when nobody voted *)
+Definition dispute_burn (e : Z * Z * Z) : Z :=
+  let '(_, b, f) := e in if Z.testbit f 0 then b else Z.quot b 2.
+Definition zsum (l : list Z) : Z := fold_right Z.add 0 l.
 
 Definition c03_step (before : snap) (s : hstep) : issues :=
   let delta := sp_supply (st_after s) - sp_supply before in
@@ -101,6 +121,12 @@ Definition c03_step (before : snap) (s : hstep) : issues :=
          if (st_op s =? "BeginBlock")%string
          then (* minted exactly the provision; burns (dispute execution) only lower the supply *)
               spec_if (delta <=? begin_block_mint s) "BeginBlock raised the supply by more than the block provision"
+              ++ (if st_result s =? 0
+                  then spec_if (delta =? begin_block_mint s - zsum (map dispute_burn (begin_block_executed s)))
+                               "BeginBlock changed the supply by something other than the block provision minus the burns of the disputes it executed"
+                       ++ spec_if (forallb (fun e => negb (Z.testbit (snd e) 1)) (begin_block_executed s))
+                                  "a superseded dispute round was executed (its burn is not a documented event)"
+                  else [])
               ++ spec_if ((sp_tbr (st_after s) - sp_tbr before =? begin_block_mint s - Z.quot (begin_block_mint s) 4)
                           && (sp_feecoll (st_after s) - sp_feecoll before =? Z.quot (begin_block_mint s) 4))
                          "block provision not split 3/4 to time_based_rewards and 1/4 to the fee collector"
@@ -108,10 +134,19 @@ Definition c03_step (before : snap) (s : hstep) : issues :=
          else []
      end.
 
+Fixpoint nodupZ (l : list Z) : bool :=
+  match l with
+  | [] => true
+  | x :: t => negb (existsb (Z.eqb x) t) && nodupZ t
+  end.
+Definition executed_ids (steps : list hstep) : list Z :=
+  flat_map (fun s => map (fun e => fst (fst e)) (begin_block_executed s)) steps.
+
 Definition c03_hist_check (c : hist_case) : issues :=
   let 'Hist init steps := c in
   spec_if (sp_balsum init =? sp_supply init) "sum of all balances differs from the recorded supply (initial state)"
-  ++ walk c03_step init steps.
+  ++ walk c03_step init steps
+  ++ spec_if (nodupZ (executed_ids steps)) "a dispute was executed, and its burn taken, twice".
 
 (* ---- C04: escrow accounts cover what the chain owes (at block boundaries) -------------------- *)
 Definition c04_boundary (s : snap) : issues :=
@@ -142,6 +177,10 @@ Definition c04_step (before : snap) (s : hstep) : issues :=
                  && (sp_oracle (st_after s) <=? sp_oracle before) && (sp_tbr (st_after s) <=? sp_tbr before))
                 "the end blocker did not move exactly the paid tips and the time based rewards into the tips escrow pool"
       else [])
+  (* a deposit claim mints into the bridge account and pays all of it out in the same message *)
+  ++ (if (st_op s =? "ClaimDeposits")%string
+      then spec_if (sp_bridge (st_after s) =? sp_bridge before) "a deposit claim left part of the minted deposit in the bridge account"
+      else [])
   (* a tip withdrawal moves whole units from the tips pool into the staking pools *)
   ++ (if (st_op s =? "WithdrawTip")%string && (st_result s =? 0) then
         spec_if ((sp_tips before - sp_tips (st_after s) =?
@@ -153,7 +192,25 @@ Definition c04_step (before : snap) (s : hstep) : issues :=
 (* the successful voter-reward claims of a history as (account, dispute id) *)
 Definition reward_claims (steps : list hstep) : list (Z * Z) :=
   flat_map (fun s => if (st_op s =? "ClaimReward")%string && (st_result s =? 0)
-                     then match st_params s with [id] => [(st_signer s, id)] | _ => [] end else []) steps.
+                     then match st_params s with id :: _ => [(st_signer s, id)] | _ => [] end else []) steps.
+
+(* what the successful voter-reward claims of a history took out of the dispute account, per claim:
+   (dispute id, the pot VoterReward of that dispute's record, amount paid) *)
+Fixpoint reward_payments (before : snap) (steps : list hstep) : list (Z * Z * Z) :=
+  match steps with
+  | [] => []
+  | s :: t =>
+      (if (st_op s =? "ClaimReward")%string && (st_result s =? 0)
+       then match st_params s with
+            | [id; pot] => [(id, pot, sp_dispute before - sp_dispute (st_after s))]
+            | _ => []
+            end
+       else []) ++ reward_payments (st_after s) t
+  end.
+Definition paid_for (id : Z) (l : list (Z * Z * Z)) : Z :=
+  zsum (map (fun e => if fst (fst e) =? id then snd e else 0) l).
+Definition pots_respected (l : list (Z * Z * Z)) : bool :=
+  forallb (fun e => paid_for (fst (fst e)) l <=? snd (fst e)) l.
 Fixpoint nodup_pairs (l : list (Z * Z)) : bool :=
   match l with
   | [] => true
@@ -163,6 +220,8 @@ Fixpoint nodup_pairs (l : list (Z * Z)) : bool :=
 Definition c04_hist_check (c : hist_case) : issues :=
   let 'Hist init steps := c in
   walk c04_step init steps
+  ++ spec_if (pots_respected (reward_payments init steps))
+             "the voter rewards paid for a dispute exceed the pot its execution set aside (paid from other disputes' escrow)"
   ++ spec_if (nodup_pairs (reward_claims steps))
              "the dispute account paid the voter reward of one dispute twice to the same account (credits exceed what was paid in)".
 
